@@ -272,6 +272,9 @@ class Resolver:
             if self._fresh_list(value) and self._stored_into_after(name, d):
                 # a pre-sized list whose entries are overwritten afterwards is not its initial value any more
                 return sym("mut", ast.Constant(value=name), ast.Constant(value=d))
+            if self._resized_in_place_after(name, d):
+                # x.resize(n) / x.sort() / x.fill(v) ... change the object the name is bound to
+                return sym("mut", ast.Constant(value=name), ast.Constant(value=d))
             return self._res(value, d, depth + 1, stack, {})
         if isinstance(target, (ast.Tuple, ast.List)):
             names = [t.id if isinstance(t, ast.Name) else None for t in target.elts]
@@ -353,6 +356,18 @@ class Resolver:
             return True
         if isinstance(value, ast.BinOp) and isinstance(value.op, ast.Mult) and (isinstance(value.left, ast.List) or isinstance(value.right, ast.List)):
             return True
+        return False
+
+    IN_PLACE_METHODS = ("resize", "sort", "fill", "put", "itemset", "partition", "reverse", "setfield", "byteswap")
+
+    def _resized_in_place_after(self, name: str, d: int) -> bool:
+        for n in self.cfg.nodes:
+            if n.kind != "stmt" or n.id == d or not isinstance(n.ast, ast.Expr) or not isinstance(n.ast.value, ast.Call):
+                continue
+            fn = n.ast.value.func
+            if isinstance(fn, ast.Attribute) and fn.attr in self.IN_PLACE_METHODS and isinstance(fn.value, ast.Name) and fn.value.id == name \
+                    and self.cfg.reaches(d, n.id) and d in self.rd[n.id].get(name, ()):
+                return True
         return False
 
     def _stored_into_after(self, name: str, d: int) -> bool:
